@@ -1,7 +1,7 @@
 (* C08 - Degree elevation preserves the shape; reduction inverts elevation. Statements only. *)
 From Coq Require Import List Arith QArith Qcanon Reals Qreals.
 From BZ Require Import Base.Ops Base.QcInst Base.RInst Model.Curve Model.CurvePy Gen.PyCurveHelpers
-  Theory.CurveEval Theory.CurveElevate Theory.CurveReduce.
+  Theory.CurveEval Theory.CurveElevate Theory.CurveReduce Model.Triangle Model.TriElevate Theory.TriLink Theory.TriElevateList.
 Import ListNotations.
 
 (* the elevated curve is the same map point for point: every degree, any field of characteristic 0 *)
@@ -50,6 +50,23 @@ Theorem C08_projection_fixes_elevated :
   forall v : list R, (1 <= length v <= 4)%nat -> project_gen ROps Q2R (elevate ROps v) = Some (elevate ROps v).
 Proof. exact project_elevate. Qed.
 Print Assumptions C08_projection_fixes_elevated.
+
+(* Triangle.elevate (hand model, tied by correspondence): the elevated triangle is the same map point for point -
+   every degree, every net of the right size, every barycentric triple, any field of characteristic 0 *)
+Theorem C08_triangle_elevation_preserves_shape :
+  forall (T : Type) (K : Ops T), field_of K -> char0 K ->
+  forall (d : nat) (v : list T) (l1 l2 l3 : T), length v = tri_size d -> oadd K (oadd K l1 l2) l3 = o1 K ->
+  tri_bernstein K (S d) (tri_elevate K d v) l1 l2 l3 = tri_bernstein K d v l1 l2 l3.
+Proof. exact @tri_elevate_correct. Qed.
+Print Assumptions C08_triangle_elevation_preserves_shape.
+(* ... and its three corners are the old corners in ANY arithmetic (no ring law is used: bit-for-bit) *)
+Theorem C08_triangle_elevation_copies_corners :
+  forall (T : Type) (K : Ops T) (d : nat) (v : list T),
+  let g := fun_of K (split_rows (S (S d)) (tri_elevate K d v)) in
+  let f := fun_of K (split_rows (S d) v) in
+  g 0%nat 0%nat = f 0%nat 0%nat /\ g (S d) 0%nat = f d 0%nat /\ g 0%nat (S d) = f 0%nat d.
+Proof. exact @tri_elevate_corners. Qed.
+Print Assumptions C08_triangle_elevation_copies_corners.
 
 Example C08_example :
   match full_reduce_py 8 [elevate_py (elevate_py (qcs [0; 1; 3]%Q))] with
